@@ -262,8 +262,13 @@ struct smoothed_aggr_emin {
                 }
             }
 
+            // A column of A*P_tent may vanish (an aggregate that is closed under
+            // strong connections in a zero row sum matrix). The tentative column
+            // then already has zero energy, and no damping is needed.
             for(size_t i = 0, m = omega.size(); i < m; ++i)
-                omega[i] = math::inverse(denum[i]) * omega[i];
+                omega[i] = math::is_zero(denum[i])
+                    ? math::zero<Val>()
+                    : math::inverse(denum[i]) * omega[i];
 
             // Update AP to obtain P: P = (P_tent - D^-1 A P Omega)
             /*
